@@ -252,3 +252,82 @@ m('C17','benign-auth-helper-var',A,
   '\t\tif !checkAdmin(w, r, "") {\n\t\t\treturn\n\t\t}\n\t\tif r.Method != "HEAD" && r.Method != "GET" {\n\t\t\tmethodNotAllowed(w, "HEAD, GET")\n\t\t\treturn\n\t\t}\n\t\tw.Header().Set("cache-control", "no-cache")',
   '\t\tif checkAdmin(w, r, "") == false {\n\t\t\treturn\n\t\t}\n\t\tif r.Method != "HEAD" && r.Method != "GET" {\n\t\t\tmethodNotAllowed(w, "HEAD, GET")\n\t\t\treturn\n\t\t}\n\t\tw.Header().Set("cache-control", "no-cache")',
   '','','auth test written as == false',benign=True)
+# ---------------- C18 ----------------
+m('C18','put-skips-preconditions',A,
+  '\t\tdone := checkPreconditions(w, r, etag)\n\t\tif done {\n\t\t\treturn\n\t\t}\n\n\t\tvar newdesc group.Description',
+  '\t\tdone := false\n\n\t\tvar newdesc group.Description',
+  'R18.1','group.UpdateDescription','If-Match ignored on group PUT',quick=True)
+m('C18','delete-user-stale-tag',A,
+  '\t\terr = group.DeleteUser(g, user, wildcard, etag)','\t\tetag2, _ := group.GetUserTag(g, user, wildcard)\n\t\terr = group.DeleteUser(g, user, wildcard, etag2)',
+  'R18.1','group.DeleteUser','the store re-validates against a tag read after the precondition check (lost update)')
+m('C18','get-serves-other-tag',A,
+  '\t\tw.Header().Set("etag", etag)\n\n\t\tdone := checkPreconditions(w, r, etag)\n\t\tif done {\n\t\t\treturn\n\t\t}\n\n\t\tsendJSON(w, r, desc)',
+  '\t\tw.Header().Set("etag", "W/"+etag)\n\n\t\tdone := checkPreconditions(w, r, etag)\n\t\tif done {\n\t\t\treturn\n\t\t}\n\n\t\tsendJSON(w, r, desc)',
+  'R18.1','published etag in webserver.apiGroupHandler','served tag is not the tested one')
+m('C18','update-compares-before-lock',D,
+  '\tgroups.mu.Lock()\n\tdefer groups.mu.Unlock()\n\n\toldetag := ""\n\tvar filename string\n\told, err := readDescription(name, false)',
+  '\toldetag := ""\n\tvar filename string\n\told, err := readDescription(name, false)\n\tgroups.mu.Lock()\n\tdefer groups.mu.Unlock()\n',
+  'R18.2','UpdateDescription: read and write in one critical section','version read outside the lock: two writers with the same tag both succeed')
+m('C18','deleteuser-no-compare',D,
+  '\toldetag := makeETag(desc.fileSize, desc.modTime)\n\tif oldetag != etag {\n\t\treturn ErrTagMismatch\n\t}\n\n\tif wildcard {\n\t\tdesc.WildcardUser = nil',
+  '\tif wildcard {\n\t\tdesc.WildcardUser = nil',
+  'R18.2','DeleteUser: tag compared under the lock','conditional delete ignores the tag')
+m('C18','updateuser-unlock-early',D,
+  '\tif wildcard {\n\t\tdesc.WildcardUser = &newuser\n\t} else {\n\t\tdesc.Users[username] = newuser\n\t}\n\treturn rewriteDescriptionFile(desc.FileName, desc)',
+  '\tif wildcard {\n\t\tdesc.WildcardUser = &newuser\n\t} else {\n\t\tdesc.Users[username] = newuser\n\t}\n\tgroups.mu.Unlock()\n\tdefer groups.mu.Lock()\n\treturn rewriteDescriptionFile(desc.FileName, desc)',
+  'R18.2','UpdateUser: read and write in one critical section','lock released between compare and write')
+m('C18','rewrite-no-fsync',D,
+  '\terr = encoder.Encode(desc)\n\tif err == nil {\n\t\terr = f.Sync()\n\t}','\terr = encoder.Encode(desc)',
+  'R18.3','durability order before the rename','rename of a file that is not durable: a crash leaves an empty definition')
+m('C18','rewrite-close-error-ignored',D,
+  '\terr = f.Close()\n\tif err != nil {\n\t\tos.Remove(temp)\n\t\treturn err\n\t}','\tf.Close()',
+  'R18.3','durability order before the rename','close error ignored before the rename')
+m('C18','rewrite-temp-elsewhere',D,
+  'f, err := os.CreateTemp(dir, "*.temp")','f, err := os.CreateTemp("", "*.temp")',
+  'R18.3','temporary file in the target','temporary file on another file system')
+m('C18','rewrite-leaks-temp',D,
+  '\terr = os.Rename(temp, filename)\n\tif err != nil {\n\t\tos.Remove(temp)\n\t\treturn err\n\t}','\terr = os.Rename(temp, filename)\n\tif err != nil {\n\t\treturn err\n\t}',
+  'R18.3','temporary file removed on every error exit','failed rename leaves the temp file')
+m('C18','rewrite-in-place',D,
+  '\treturn os.Remove(fileName)\n}','\tos.WriteFile(fileName, nil, 0600)\n\treturn os.Remove(fileName)\n}',
+  'R18.3','only the atomic writer','definition file truncated in place')
+m('C18','inm-write-proceeds',  'webserver/precondition.go',
+  '\t\t} else {\n\t\t\tw.WriteHeader(http.StatusPreconditionFailed)\n\t\t\treturn true\n\t\t}','\t\t}',
+  'R18.4','checkPreconditions status matrix','If-None-Match: * does not protect creation')
+m('C18','star-always-matches','webserver/precondition.go',
+  '\t\t\treturn etag != ""','\t\t\treturn true',
+  'R18.4',"'*' matches iff the object exists",'If-Match: * succeeds on a missing object')
+m('C18','benign-done-inline',A,
+  '\t\tdone := checkPreconditions(w, r, etag)\n\t\tif done {\n\t\t\treturn\n\t\t}\n\t\terr = group.DeleteDescription(g, etag)',
+  '\t\tif checkPreconditions(w, r, etag) {\n\t\t\treturn\n\t\t}\n\t\terr = group.DeleteDescription(g, etag)',
+  '','','precondition result tested inline',benign=True)
+# ---------------- C16 ----------------
+S='token/stateful.go'
+m('C16','update-no-tag-compare',S,
+  '\t\tif etag != state.etag() {\n\t\t\treturn nil, ErrTagMismatch\n\t\t}\n\t\tstate.tokens[token.Token] = token','\t\tstate.tokens[token.Token] = token',
+  'R16.2','Update: map mutation under the tag comparison','conditional token edit ignores the tag',quick=True)
+m('C16','delete-compare-before-load',S,
+  '\t_, err := state.load()\n\tif err != nil {\n\t\treturn err\n\t}\n\n\tif state.tokens == nil {\n\t\treturn os.ErrNotExist\n\t}\n\n\told, ok := state.tokens[token]\n\tif !ok {\n\t\treturn os.ErrNotExist\n\t}\n\tif etag != state.etag() {\n\t\treturn ErrTagMismatch\n\t}',
+  '\tif etag != state.etag() {\n\t\treturn ErrTagMismatch\n\t}\n\t_, err := state.load()\n\tif err != nil {\n\t\treturn err\n\t}\n\n\tif state.tokens == nil {\n\t\treturn os.ErrNotExist\n\t}\n\n\told, ok := state.tokens[token]\n\tif !ok {\n\t\treturn os.ErrNotExist\n\t}',
+  'R16.2','Delete','tag compared against the stale in-memory version')
+m('C16','create-with-any-tag',S,
+  '\tif etag != "" {\n\t\treturn nil, ErrTagMismatch\n\t}\n\treturn state.add(token)','\treturn state.add(token)',
+  'R16.2','creation only without a tag','token created although an existing version was expected')
+m('C16','update-no-rollback',S,
+  '\t\tif err != nil {\n\t\t\tstate.tokens[token.Token] = old\n\t\t\treturn nil, err\n\t\t}\n\t\treturn token, nil','\t\tif err != nil {\n\t\t\t_ = old\n\t\t\treturn nil, err\n\t\t}\n\t\treturn token, nil',
+  'R16.3','Update: rollback','failed write leaves the edit in memory')
+m('C16','get-unlocked',S,
+  'func (state *state) Get(token string) (*Stateful, string, error) {\n\tstate.mu.Lock()\n\tdefer state.mu.Unlock()\n','func (state *state) Get(token string) (*Stateful, string, error) {\n',
+  'R16.1','state.','token state read without the mutex')
+m('C16','rewrite-in-place',S,
+  '\terr = os.Rename(tmpfile.Name(), state.filename)\n\tif err != nil {\n\t\tos.Remove(tmpfile.Name())\n\t\treturn err\n\t}','\tdata, err := os.ReadFile(tmpfile.Name())\n\tif err == nil {\n\t\terr = os.WriteFile(state.filename, data, 0600)\n\t}\n\tos.Remove(tmpfile.Name())\n\tif err != nil {\n\t\treturn err\n\t}',
+  'R16.4','','token file rewritten in place')
+m('C16','rewrite-encode-error-ignored',S,
+  '\t\terr := encoder.Encode(t)\n\t\tif err != nil {\n\t\t\ttmpfile.Close()\n\t\t\tos.Remove(tmpfile.Name())\n\t\t\treturn err\n\t\t}','\t\tencoder.Encode(t)',
+  'R16.4','durability order before the rename','partial token set renamed over the file')
+m('C16','add-truncates',S,
+  'os.O_CREATE|os.O_WRONLY|os.O_APPEND, 0600,','os.O_CREATE|os.O_WRONLY|os.O_TRUNC, 0600,',
+  'R16.4','state.add appends one record','adding a token deletes all others on disk')
+m('C16','api-put-wrong-tag',A,
+  '\t\t_, err = token.Update(&newtoken, etag)','\t\t_, etag2, _ := token.Get(t)\n\t\t_, err = token.Update(&newtoken, etag2)',
+  'R16.5','token.Update','store re-validated against a fresh tag: lost update')
